@@ -321,7 +321,86 @@ fn sort_arms(m: &mut syn::ExprMatch) {
     m.arms = arms;
 }
 
+fn diverges_expr(e: &syn::Expr) -> bool {
+    match e {
+        syn::Expr::Return(_) | syn::Expr::Break(_) | syn::Expr::Continue(_) => true,
+        syn::Expr::Block(b) => matches!(b.block.stmts.last(), Some(syn::Stmt::Expr(x, _)) if diverges_expr(x)),
+        syn::Expr::Macro(m) => m.mac.path.is_ident("unreachable") || m.mac.path.is_ident("panic"),
+        _ => false,
+    }
+}
+
+/// `return X` in tail position is `X`
+fn strip_tail_return(b: &mut syn::Block) {
+    let Some(last) = b.stmts.last_mut() else { return };
+    if let syn::Stmt::Expr(e, semi) = last {
+        let is_ret = matches!(e, syn::Expr::Return(r) if r.expr.is_some());
+        if is_ret {
+            if let syn::Expr::Return(r) = e {
+                let inner = *r.expr.take().unwrap();
+                *e = inner;
+                *semi = None;
+            }
+        }
+        if semi.is_none() || matches!(e, syn::Expr::Match(_) | syn::Expr::If(_)) {
+            strip_tail_return_expr(e);
+        }
+    }
+}
+
+fn strip_tail_return_expr(e: &mut syn::Expr) {
+    match e {
+        syn::Expr::Block(b) => strip_tail_return(&mut b.block),
+        syn::Expr::Match(m) => {
+            for a in m.arms.iter_mut() {
+                if let syn::Expr::Return(r) = &mut *a.body {
+                    if let Some(x) = r.expr.take() {
+                        *a.body = *x;
+                    }
+                } else {
+                    strip_tail_return_expr(&mut a.body);
+                }
+            }
+        }
+        syn::Expr::If(i) => {
+            strip_tail_return(&mut i.then_branch);
+            if let Some((_, el)) = &mut i.else_branch {
+                strip_tail_return_expr(el);
+            }
+        }
+        _ => {}
+    }
+}
+
 impl VisitMut for Normalizer {
+    fn visit_item_fn_mut(&mut self, f: &mut syn::ItemFn) {
+        visit_mut::visit_item_fn_mut(self, f);
+        strip_tail_return(&mut f.block);
+    }
+
+    fn visit_impl_item_fn_mut(&mut self, f: &mut syn::ImplItemFn) {
+        visit_mut::visit_impl_item_fn_mut(self, f);
+        strip_tail_return(&mut f.block);
+    }
+
+    fn visit_block_mut(&mut self, b: &mut syn::Block) {
+        // `let P = E else { D }; REST`  ->  `match E { P => { REST }, _ => { D } }`
+        if let Some(i) = b.stmts.iter().position(|s| matches!(s, syn::Stmt::Local(l) if l.attrs.is_empty() && l.init.as_ref().map_or(false, |x| x.diverge.is_some()))) {
+            let rest: Vec<syn::Stmt> = b.stmts.drain(i + 1..).collect();
+            if let Some(syn::Stmt::Local(l)) = b.stmts.pop() {
+                let init = l.init.unwrap();
+                let (_, div) = init.diverge.unwrap();
+                let div = match *div {
+                    syn::Expr::Block(_) => *div,
+                    other => block_expr(vec![syn::Stmt::Expr(other, None)]),
+                };
+                let m = mk_match(*init.expr, vec![arm(l.pat, block_expr(rest)), wild_arm(div)]);
+                b.stmts.push(syn::Stmt::Expr(m, None));
+            }
+        }
+        visit_mut::visit_block_mut(self, b);
+    }
+
     fn visit_pat_mut(&mut self, p: &mut syn::Pat) {
         visit_mut::visit_pat_mut(self, p);
         canon_pat(p);
@@ -391,11 +470,36 @@ impl VisitMut for Normalizer {
         }
         visit_mut::visit_expr_mut(self, e);
         if let syn::Expr::Match(m) = e {
+            // the complement of a single constructor pattern is the wildcard
+            if m.arms.len() == 2 && m.arms.iter().all(|a| a.guard.is_none() && a.attrs.is_empty()) {
+                let first = sm::tsc(&m.arms[0].pat);
+                let second = sm::tsc(&m.arms[1].pat);
+                let complement = (first.starts_with("Some(") && second == "None") || (first.starts_with("Ok(") && (second == "Err(_)" || second == "Err(..)")) || (first.starts_with("Err(") && (second == "Ok(_)")) || (first == "None" && second == "Some(_)");
+                if complement {
+                    m.arms[1].pat = syn::Pat::Wild(syn::PatWild { attrs: vec![], underscore_token: Default::default() });
+                }
+            }
+            // an arm body that is a block holding a single tail expression is that expression
+            for a in m.arms.iter_mut() {
+                let single: Option<syn::Expr> = match &*a.body {
+                    syn::Expr::Block(b) if b.attrs.is_empty() && b.label.is_none() && b.block.stmts.len() == 1 => match &b.block.stmts[0] {
+                        syn::Stmt::Expr(x, None) if !matches!(x, syn::Expr::Let(_)) => Some(x.clone()),
+                        _ => None,
+                    },
+                    _ => None,
+                };
+                if let Some(x) = single {
+                    *a.body = x;
+                    a.comma = Some(Default::default());
+                }
+            }
             sort_arms(m);
         }
     }
 }
 
 pub fn normalize_file(f: &mut syn::File) {
+    // two passes: the second one sees the tail positions created by the first (let-else, tail returns)
+    Normalizer.visit_file_mut(f);
     Normalizer.visit_file_mut(f);
 }
